@@ -48,10 +48,10 @@ def make_tree(root, rng, big=True):
     files = {}
     nf = rng.randrange(2, 13)
     for i in range(nf):
-        sub = f"sub-{rng.randrange(1, 4):02d}"
+        sub = rng.choice([f"sub-{rng.randrange(1, 4):02d}", f"sub-CTL{rng.randrange(1, 3)}", "sub-Pilot_a"])
         task = rng.choice(["A", "B", "rest"])
         style = rng.choice(["task-", "task_"])
-        d = rng.choice([sub, f"{sub}/ses-1/eeg", f"{sub}/eeg", ""])
+        d = rng.choice([sub, f"{sub}/ses-1/eeg", f"{sub}/eeg", "", f"{sub}/ses-Pre/EEG", f"{sub}/Run 2 (retest)"])
         name = f"{sub}_{style}{task}_run-{i}_events.tsv"
         rows = ["onset\tduration\ttrial_type\tresponse"]
         n = rng.choice([0, 3, 40, 4000 if big else 60, 9000 if big else 80])
